@@ -61,6 +61,7 @@ type BuildEnv struct {
 	X        *Interp // interpreter running Custom bodies (nil: Custom bodies only draw)
 	Rejects  int64   // observed rejections: filter predicate false, duplicate key (atomic)
 	FnCalls  int64   // calls of user functions (atomic)
+	KeyCalls int64   // calls of key functions of distinct slices / MapOfValues (atomic)
 	inputs   sync.Map
 	deferred int64
 }
@@ -331,6 +332,7 @@ func (s *GenSpec) Build(env *BuildEnv) *rapid.Generator[any] {
 		}
 		seenKeys := func(v any) any {
 			atomic.AddInt64(&env.FnCalls, 1)
+			atomic.AddInt64(&env.KeyCalls, 1)
 			return s.key(v)
 		}
 		if s.Short && s.Min == -1 && s.Max == -1 {
@@ -347,6 +349,7 @@ func (s *GenSpec) Build(env *BuildEnv) *rapid.Generator[any] {
 		val := s.Sub[0].Build(env)
 		kf := func(v any) any {
 			atomic.AddInt64(&env.FnCalls, 1)
+			atomic.AddInt64(&env.KeyCalls, 1)
 			return s.key(v)
 		}
 		if s.Short && s.Min == -1 && s.Max == -1 {
@@ -981,4 +984,50 @@ func canonRV(b *strings.Builder, rv reflect.Value, depth int) {
 	default:
 		fmt.Fprintf(b, "<%s>", rv.Kind())
 	}
+}
+
+// KeyedLen sums the lengths of all collections inside v whose elements went through a key function
+// (distinct slices, MapOfValues): KeyCalls minus this sum is the number of duplicate keys that were rejected.
+func (s *GenSpec) KeyedLen(v any) int64 {
+	var n int64
+	switch s.K {
+	case "slice":
+		sl, _ := v.([]any)
+		if s.Fn != "" {
+			n += int64(len(sl))
+		}
+		for _, e := range sl {
+			n += s.Sub[0].KeyedLen(e)
+		}
+	case "map":
+		m, _ := v.(map[any]any)
+		for k, e := range m {
+			n += s.Sub[0].KeyedLen(k) + s.Sub[1].KeyedLen(e)
+		}
+	case "mapvalues":
+		m, _ := v.(map[any]any)
+		n += int64(len(m))
+		for _, e := range m {
+			n += s.Sub[0].KeyedLen(e)
+		}
+	case "ptr":
+		if p, _ := v.(*any); p != nil {
+			n += s.Sub[0].KeyedLen(*p)
+		}
+	case "deferred", "filter":
+		n += s.Sub[0].KeyedLen(v)
+	case "mapped":
+		if w, ok := v.(Wrapped); ok {
+			n += s.Sub[0].KeyedLen(w.V)
+		}
+	case "oneof":
+		// the alternative taken is not observable: count nothing (rejections are under-estimated)
+	case "custom":
+		if cv, ok := v.(CustomVal); ok {
+			for i := range cv.Vals {
+				n += cv.Specs[i].KeyedLen(cv.Vals[i])
+			}
+		}
+	}
+	return n
 }
